@@ -38,6 +38,22 @@ CHECKS = {
         'Unsafe = what the statement enumerates, pinned in vcheck.imggen; '
         'spellings the statement does not mention are counted as unspecified.',
         'DESIGN.md section 4 C02'),
+    'C03': (
+        'reference model of signature presence (definite / marginal / '
+        'absent) + totality fuzzing + per-read history invariant',
+        'exploration',
+        'Every subset of the nine signatures on three backgrounds at lengths '
+        'around every decision point is enumerated (unrestricted detection, '
+        'three read patterns, and detect_file_format on files); valid, '
+        'mutated, truncated, polyglot and unstructured contents x '
+        'allowed_formats subsets x read sizes x read/iter are sampled with '
+        'Hypothesis. The observed format/formats must be an admissible '
+        'outcome of the model; only ImageFormatError may be raised; format '
+        'is sampled after every read for the no-revision clause.',
+        'Trusts vcheck.sigmodel (written from the format documents); '
+        'marginal content and the text-descriptor VMDK class admit either '
+        'answer.',
+        'DESIGN.md section 4 C03'),
     'C07': (
         'round trip against layout-built ground truth + prefix enumeration '
         '(Hypothesis + exhaustive sweeps)',
